@@ -309,7 +309,13 @@ func runC15(c *Ctx) {
 		if now.Unix()+off < 11 || now.Unix()+off > 0xFFFFFFFF {
 			continue
 		}
-		ts := uint32(now.Unix() + off)
+		// the clock is read again for every offset, and a future instant that the clock has reached by the
+		// time the answers are in (a loaded machine, a one-second margin) decides nothing
+		cur := time.Now()
+		if cur.Unix()+off < 11 || cur.Unix()+off > 0xFFFFFFFF {
+			continue
+		}
+		ts := uint32(cur.Unix() + off)
 		want := off < 0
 		ls, _, err := lease_set2.ReadLeaseSet2(c15LS2(ts-10, 10))
 		m, _, err2 := meta_leaseset.ReadMetaLeaseSet(c15Meta(ts-10, 10, ts))
@@ -322,6 +328,19 @@ func runC15(c *Ctx) {
 		ok := err == nil && err2 == nil && err3 == nil && err4 == nil &&
 			ls.IsExpired() == want && m.IsExpired() == want && el.IsExpired() == want && o.IsExpired() == want &&
 			l2.IsExpired() == want && l1.IsExpired() == want && m.Entries()[0].IsExpired() == want
+		if !want && time.Now().Unix() >= int64(ts) {
+			continue
+		}
 		c.Check("expired_iff_past", ok, "IsExpired", [][]byte{i64(off)}, "", fmt.Sprintf("offset %d s from now: expected expired=%v", off, want))
+	}
+	// the legacy Lease carries a 64-bit millisecond end date: instants beyond the 32-bit second range
+	// (2106 and later) are in the future, and Time()/Date() report them exactly
+	for _, secs := range []uint64{1<<32 - 1, 1 << 32, 1<<32 + 1, 1<<32 + uint64(now.Unix()), 5680281600, 1 << 33, 1<<33 + 12345, 1 << 34, 1 << 40, 1<<53/1000} {
+		var l1 lease.Lease
+		l1[0] = 1
+		ms := secs*1000 + uint64(r.Intn(1000))
+		copy(l1[36:], u64e(ms))
+		ok := !l1.IsExpired() && l1.Validate() == nil && uint64(l1.Time().UnixMilli()) == ms && uint64(l1.Date().Int()) == ms
+		c.Check("expired_iff_past", ok, "Lease.IsExpired", [][]byte{u64e(ms)}, "", fmt.Sprintf("end date %d ms is in the future: expired=%v validate=%v", ms, l1.IsExpired(), l1.Validate()))
 	}
 }
